@@ -32,6 +32,29 @@ from srctools.filesys import (  # noqa: E402
 BS = '\\'
 NAMES_MC = [['a', 'x'], ['a', 'X'], ['ab', 'x'], ['a', 'b', 'x'], ['x'], ['A', 'x']]
 BACKENDS = ['virtual', 'zip', 'vpk', 'raw']
+# Concretisations of the model's symbols.  Each keeps what the model relies on: a/A, x/X, ab/AB, b/B
+# are case-fold equivalent pairs with different spellings, 'ab' extends the text of 'a', everything
+# else is distinct.  In 1 and 2 the case folding is not str.lower(): 'ß' folds to 'ss' (two
+# characters), the ligature to 'fi', a capital final sigma lower-cases to another letter than it
+# folds to.  VPK names are ASCII by format, so the VPK backend takes part in concretisation 0 only.
+SYMBOLS = ['a', 'A', 'ab', 'AB', 'b', 'B', 'x', 'X', 'zz']
+CONC = [
+    {c: c for c in SYMBOLS},
+    {'a': 'straße', 'A': 'STRASSE', 'ab': 'straßeb', 'AB': 'STRASSEB', 'b': 'b', 'B': 'B', 'x': 'ﬁx', 'X': 'FIX', 'zz': 'zz'},
+    {'a': 'ΟΔΟΣ', 'A': 'οδος', 'ab': 'ΟΔΟΣb', 'AB': 'οδοςB', 'b': 'ſ', 'B': 'S', 'x': 'x', 'X': 'X', 'zz': 'zz'},
+]
+
+
+def cz(cm: dict, comps: list) -> list:
+    return [cm[c] for c in comps]
+
+
+def cz_toks(cm: dict, toks: list) -> list:
+    return [[s_, cm[c]] for s_, c in toks]
+
+
+def conc_field(ci: int) -> list:
+    return [[k, v] for k, v in CONC[ci].items()] if ci else []
 
 
 # ------------------------------------------------------------------ the harness's own VPK encoder
@@ -218,7 +241,7 @@ def fs_record(fac: Factory, backend: str, files: list, lookups: list, folders: l
             wks.append(do_walk(fs, toks, via_iter=True))
     return {'k': 'fs', 'src': src, 'backend': backend, 'files': [[c, cid] for c, cid in files],
             'fold': fold_table(all_comps(files, lookups + folders), [c for w in wks for it in w['items'] for c in it['n']]),
-            'lookups': lks, 'walks': wks, 'footer': footer,
+            'lookups': lks, 'walks': wks, 'footer': footer, 'ci': 0, 'conc': [], 'afiles': [],
             'sig': {'kind': 'fs', 'backend': backend, 'src': src}}
 
 
@@ -230,13 +253,23 @@ def folder_toks(folder: list) -> list:
 
 
 def single_family(out: hlib.RecWriter, fac: Factory, maxfiles: int) -> None:
-    lookups = [t for n in SINGLE_LOOKUP_NAMES for t in spellings(n)]
-    folders = [t for f in SINGLE_FOLDERS for t in folder_toks(f)]
-    for n in range(0, maxfiles + 1):
-        for combo in itertools.combinations(NAMES_MC, n):
-            files = [(list(c), 'k1:' + '/'.join(c)) for c in combo]
-            for backend in BACKENDS:
-                out.write(fs_record(fac, backend, files, lookups, folders, 'exh'))
+    for ci, cm in enumerate(CONC):
+        lookups = [t for n in SINGLE_LOOKUP_NAMES for t in spellings(cz(cm, n))]
+        folders = [t for f in SINGLE_FOLDERS for t in folder_toks(cz(cm, f))]
+        for n in range(0, maxfiles + 1):
+            for combo in itertools.combinations(NAMES_MC, n):
+                files = [(cz(cm, c), 'k1:' + '/'.join(cz(cm, c))) for c in combo]
+                for backend in BACKENDS:
+                    if backend == 'vpk' and ci:
+                        continue
+                    rec = fs_record(fac, backend, files, lookups, folders, 'exh')
+                    rec['ci'] = ci
+                    rec['conc'] = conc_field(ci)
+                    rec['afiles'] = [list(c) for c in combo]
+                    rec['fold'] = fold_table([c for f in rec['fold'] for c in f[:1]], list(cm.values()),
+                                             all_comps(files, lookups + folders),
+                                             [c for w in rec['walks'] for it in w['items'] for c in it['n']])
+                    out.write(rec)
 
 
 # ------------------------------------------------------------------ chains
@@ -329,7 +362,8 @@ def chain_record(fac: Factory, pre: list, act: dict, lookups: list, folders: lis
     chain.add_sys(spies[act['k']], spelled(act), priority=act['pr'])
     order = [s.idx for s, _ in chain.systems]
     by_k = {m['k']: m for m in pre + [act]}
-    members = [{'k': k, 'backend': by_k[k]['backend'], 'pfx': list(by_k[k]['pfx']), 'pfxs': spelled(by_k[k]), 'footer': bool(by_k[k].get('footer', False)),
+    members = [{'k': k, 'backend': by_k[k]['backend'], 'pfx': list(by_k[k]['pfx']), 'pfxs': spelled(by_k[k]),
+                'afiles': by_k[k].get('anames', []), 'apfx': by_k[k].get('apfx', []), 'footer': bool(by_k[k].get('footer', False)),
                 'files': [[c, cid] for c, cid in mem_files[k]]} for k in order]
     pos = {k: i + 1 for i, k in enumerate(order)}
 
@@ -389,13 +423,15 @@ def chain_record(fac: Factory, pre: list, act: dict, lookups: list, folders: lis
     comps += [c for w in wks for cl in w['calls'] for it in cl['items'] for c in it['n']]
     return {'k': 'chain', 'src': src, 'pre': [m['k'] for m in pre],
             'act': {'k': act['k'], 'pr': act['pr'], 'pfx': list(act['pfx'])}, 'order': order,
-            'members': members, 'fold': fold_table(comps), 'lookups': lks, 'walks': wks,
+            'members': members, 'fold': fold_table(comps), 'lookups': lks, 'walks': wks, 'ci': 0, 'conc': [],
             'sig': {'kind': 'chain', 'src': src}}
 
 
-def pick_backend(rng_key: str, names: list) -> str:
+def pick_backend(rng_key: str, names: list, ascii_only: bool = True) -> str:
     h = zlib.crc32(rng_key.encode())
     order = BACKENDS[h % 4:] + BACKENDS[:h % 4]
+    if not ascii_only:
+        order = [b for b in order if b != 'vpk']
     files = [(list(n), '') for n in names]
     for b in order:
         if b != 'raw' or unambiguous(files):
@@ -413,12 +449,21 @@ def replay_edges(out: hlib.RecWriter, fac: Factory, edge_file: str, stats: dict,
         k_new = len(e['s']) + 1
         def how(k):
             return PREFIX_SPELLINGS[zlib.crc32(f'{seed}:{ei}:{k}:pfx'.encode()) % len(PREFIX_SPELLINGS)]
-        pre = [{'names': sorted(m['names']), 'pfx': list(m['pfx']), 'k': m['k'], 'pfxs': spell_prefix(list(m['pfx']), how(m['k'])),
-                'backend': pick_backend(f'{seed}:{ei}:{m["k"]}', m['names'])} for m in e['s']]
-        act = {'names': sorted(a['names']), 'pfx': list(a['pfx']), 'pr': a['pr'], 'k': k_new,
-               'pfxs': spell_prefix(list(a['pfx']), how(k_new)),
-               'backend': pick_backend(f'{seed}:{ei}:{k_new}', a['names'])}
-        rec = chain_record(fac, pre, act, CHAIN_LOOKUPS, CHAIN_FOLDERS, 'edge')
+        ci = (0, 0, 1, 2)[zlib.crc32(f'{seed}:{ei}:conc'.encode()) % 4]
+        cm = CONC[ci]
+
+        def member(names, pfx, k):
+            cn = [cz(cm, n) for n in sorted(names)]
+            return {'names': cn, 'anames': [list(n) for n in sorted(names)], 'pfx': cz(cm, pfx), 'apfx': list(pfx), 'k': k,
+                    'pfxs': spell_prefix(cz(cm, pfx), how(k)),
+                    'backend': pick_backend(f'{seed}:{ei}:{k}', cn, ascii_only=(ci == 0))}
+        pre = [member(m['names'], m['pfx'], m['k']) for m in e['s']]
+        act = dict(member(a['names'], a['pfx'], k_new), pr=a['pr'])
+        rec = chain_record(fac, pre, act, [cz_toks(cm, t) for t in CHAIN_LOOKUPS], [cz_toks(cm, t) for t in CHAIN_FOLDERS], 'edge')
+        rec['ci'] = ci
+        rec['conc'] = conc_field(ci)
+        rec['fold'] = fold_table([f[0] for f in rec['fold']], list(cm.values()))
+        stats[f'conc{ci}'] = stats.get(f'conc{ci}', 0) + 1
         rec['want'] = [m['k'] for m in e['t']]
         out.write(rec)
         stats['edges_replayed'] = stats.get('edges_replayed', 0) + 1
@@ -430,7 +475,10 @@ R_NAMES = [['materials', 'foo', 'bar.vmt'], ['materials', 'foobar', 'baz.vmt'], 
            ['models', 'props_c17', 'a.mdl'], ['models', 'a.mdl'], ['sound', 'ui', 'beep.wav'], ['scripts.txt'],
            ['sound', 'ui', 'Beep.wav'], ['Sound', 'UI', 'click.wav'], ['materials', 'foo', 'sub', 'deep', 'n.vmt'],
            ['m', 'noext'], ['cfg', '.hidden'], ['a.b', 'c.d', 'e.f.g']]
-R_UNI = [['matériaux', 'Straße.vmt'], ['MATÉRIAUX', 'STRASSE.VMT'], ['ǅ', 'x.txt']]
+R_UNI = [['matériaux', 'Straße.vmt'], ['MATÉRIAUX', 'STRASSE.VMT'], ['ǅ', 'x.txt'],
+         ['maps', 'Straße', 'road.vmf'], ['MAPS', 'STRASSE', 'Road.vmf'], ['maps', 'Straßenbahn', 'tram.vmf'],
+         ['ΟΔΟΣ', 'a.txt'], ['οδος', 'b.txt'], ['ﬁles', 'ﬂag.txt'], ['FILES', 'c.txt'], ['ſet', 'ſ.txt']]
+R_UNI_PREFIXES = [['maps', 'Straße'], ['MAPS', 'STRASSE'], ['ΟΔΟΣ'], ['ﬁles'], ['maps']]
 R_PREFIXES = [[], ['materials'], ['materials', 'foo'], ['Materials'], ['models'], ['sound', 'ui'], ['m']]
 
 
@@ -450,7 +498,7 @@ def random_tier(out: hlib.RecWriter, fac: Factory, rng: random.Random, n_fs: int
         return lk, fl
     for i in range(n_fs):
         backend = BACKENDS[i % 4]
-        pool = R_NAMES + (R_UNI if backend in ('virtual', 'zip') else [])
+        pool = R_NAMES + (R_UNI if backend in ('virtual', 'zip', 'raw') else [])
         names = rng.sample(pool, rng.randint(1, 7))
         files = [(list(n), f'k1:{"/".join(n)}') for n in names]
         if backend == 'raw' and not unambiguous(files):
@@ -461,11 +509,12 @@ def random_tier(out: hlib.RecWriter, fac: Factory, rng: random.Random, n_fs: int
         n_mem = rng.randint(2, 5)
         mems = []
         for k in range(1, n_mem + 1):
-            names = [list(n) for n in rng.sample(R_NAMES, rng.randint(0, 5))]
-            b = rng.choice(BACKENDS)
+            uni = rng.random() < 0.35
+            names = [list(n) for n in rng.sample(R_NAMES + (R_UNI if uni else []), rng.randint(0, 5))]
+            b = rng.choice([x for x in BACKENDS if not (uni and x == 'vpk')])
             if b == 'raw' and not unambiguous([(n, '') for n in names]):
-                b = rng.choice(['virtual', 'zip', 'vpk'])
-            pfx = list(rng.choice(R_PREFIXES))
+                b = rng.choice(['virtual', 'zip'] + ([] if uni else ['vpk']))
+            pfx = list(rng.choice(R_PREFIXES + (R_UNI_PREFIXES if uni else [])))
             if pfx and rng.random() < 0.5:      # free-form spelling: './', any separator between, any tail
                 pfxs = rng.choice(['', './', '.' + BS]) + pfx[0]
                 for c in pfx[1:]:
